@@ -772,6 +772,20 @@ class Calls(Exec):
             if getattr(st, 'spec_assume', False):
                 return VBool(z3.ForAll([k], IMPL(rng, AND(body, *extra))))
             return VBool(z3.ForAll([k], IMPL(AND(rng, *extra), body)))
+        if name == 'occurs_at':
+            # occurs_at(s, p, t): the string t occurs in s at index p (0 <= p, p + len(t) <= len(s), characters
+            # equal); quantified over absolute positions of s's array so that triggers match whatever the views
+            sv = self.as_str(self.ev1(a[0], st))
+            pv = self.int_term(self.ev1(a[1], st), node)
+            tv = self.as_str(self.ev1(a[2], st))
+            arr, off, n = str_parts(sv)
+            arr2, off2, n2 = str_parts(tv)
+            k = fresh_int('qk')
+            base = simp(off + pv)
+            return VBool(AND(pv >= 0, pv + n2 <= n,
+                             forall_trig([k], IMPL(AND(k >= base, k < simp(base + n2)),
+                                                   z3.Select(arr, k) == z3.Select(arr2, simp(off2 + k - base))),
+                                         z3.Select(arr, k))))
         if name == 'fresh':
             v = self.ev1(a[0], st)
             if st.old is None:
